@@ -44,6 +44,16 @@ CLAIMED = {
    note="exact reals: IEEE overflow to inf, denormals and NaN propagation are not decided (no faithful SMT encoding of pow/exp/log); intermediate non-finite values overwritten by a mask before being returned are not outputs; V2Map restricted to x_j <= 2 x_i; C spline index clipping is decided under C18.",
    technique="symbolic execution + one SMT domain query per partial operation under the path condition; replay on the unmodified code with isfinite",
    design="4/C08"),
+ "C15": dict(
+   text="ciderpress/models/kernels.py and scikit-learn's own kernels.py are both executed symbolically from source on 2 x d symbolic inputs with symbolic hyper-parameters for ~30 kernel configurations (RBF family, linear, polynomial, additive ARBF/ARBFV2/AddLLRBF/AddRQ, subset, spin-symmetrised, partial, antisymmetric, noise, sums/products/powers/linear transforms); z3 decides k(X,Y)=k(Y,X)^T, diag, k_and_deriv = (k, dk/dX) incl. the Y=None convention, eval_gradient = dk/dtheta with fixed hyper-parameters absent, composition algebra, spin-block symmetry, and 2x2 positive semidefiniteness for 7 kernels.",
+   note="matrices 2 x 2, d <= 4, orders <= 2 (quick) / 3 (thorough); PSD for n >= 3 and _reduce_npts not applicable; scipy cdist/pdist replaced by their definitions.",
+   technique="symbolic execution of the kernels and of scikit-learn's kernel base classes + automatic differentiation + z3",
+   design="4/C15"),
+ "C09": dict(
+   text="Aliasing: every public pure-Python entry (exponents, s2/alpha routines, all map classes, normaliser list, semilocal plan, NLDF plan, eval_xc_cider) is called with caller-owned symbolic arrays and z3 decides on every feasible path that the arrays hold the same terms afterwards. Batching/blocking: the real nr_rks/nr_uks/nr_rks_nldf/nr_uks_nldf are executed symbolically (nao=2, 2 grid points, nset=2; one block of 2 vs two blocks of 1) and compared term-by-term with separate calls on fresh objects. History: interleaved/repeated calls on one plan object and a failed-then-successful call on one kernel object against fresh objects.",
+   note="PySCF primitives replaced by numpy reference implementations; generator and eval_xc_cider by contract stubs that keep the per-spin cache statefulness; real max_memory->blksize arithmetic and SDMX buffers outside.",
+   technique="symbolic execution of the orchestration code + z3 equality of before/after and batched/separate terms",
+   design="4/C09"),
 }
 
 NOT_YET = {}
